@@ -700,7 +700,7 @@ fn all_session_scenarios() -> Vec<String> {
     for l in 0..LOGIN.len() {
         for a in DATA_CMDS.iter().chain(ADMIN_CMDS.iter()).chain(RESOLVE_CMDS.iter()) { out.push(format!("{}|{}", l, a)); }
         for k in PERM_KEYS { for c in ["get", "set", "increment", "remove", "watch"] { out.push(format!("{}|{} {}{}", l, c, k, if c == "set" { " v" } else if c == "increment" { " 1" } else { "" })); } }
-        for pat in ["keys g*", "keys *e", "keys on", "keys go*"] { out.push(format!("{}|{}", l, pat)); }
+        for pat in ["keys g*", "keys *e", "keys on", "keys go*", "keys cnt", "keys sea", "keys public", "keys user1", "keys xcnt"] { out.push(format!("{}|{}", l, pat)); }
         // a key that merely CONTAINS a secure key's name behind a blank is another key: whatever is done with it tells nothing about, and changes nothing of, the $$ key
         for wild in ["watch *", "watch $*", "watch *secret", "watch *fresh", "watch $$*"] { out.push(format!("{}|{}", l, wild)); }
         for padded in ["get <CR>$$secret", "get-safe <TAB>$$secret", "get <NBSP>$$secret", "get $$secret<CR>", "watch <CR>$$secret", "remove <CR>$$secret", "remove <TAB>$$token",
@@ -1494,6 +1494,7 @@ fn scenario_watch(sc: &str) -> Result<Violations, String> {
     let (sb, mut rb): (Sender<String>, Receiver<String>) = channel(1000);
     let mut sub = [0usize, 0usize];   // number of registrations of each client for k (`d` = watch again without unwatching: a second registration)
     let mut expect = [0usize, 0usize];
+    let mut sub2 = [0usize, 0usize];   // registrations for the key `kk`
     let mut v: Violations = vec![];
     for ev in sc.split('.').filter(|e| !e.is_empty()) {
         let who = if ev.ends_with('B') { 1 } else { 0 };
@@ -1502,8 +1503,11 @@ fn scenario_watch(sc: &str) -> Result<Violations, String> {
             "w" => { if sub[who] == 0 { watch_key(&"k".to_string(), snd, &db); sub[who] = 1; } }
             "d" => { watch_key(&"k".to_string(), snd, &db); sub[who] += 1; }
             "u" => { unwatch_key(&"k".to_string(), snd, &db); sub[who] = 0; }
-            "x" => { unwatch_all(snd, &db); sub[who] = 0; }
+            "x" => { unwatch_all(snd, &db); sub[who] = 0; sub2[who] = 0; }
             "o" => { watch_key(&"other".to_string(), snd, &db); }
+            // a second key whose name CONTAINS the first key's name: subscriptions are per exact key name - `unwatch k` ends nothing of `kk`
+            "m" => { if sub2[who] == 0 { watch_key(&"kk".to_string(), snd, &db); sub2[who] = 1; } }
+            "t" => { set_key_value("kk".into(), "8".into(), -1, &db, &dbs); for w in 0..2 { expect[w] += 2 * sub2[w]; } }
             "s" => { set_key_value("k".into(), "7".into(), -1, &db, &dbs); for w in 0..2 { expect[w] += 2 * sub[w]; } }
             "i" => { db.inc_value("k".into(), 1); for w in 0..2 { expect[w] += 2 * sub[w]; } }
             "r" => { remove_key(&"k".to_string(), &db); for w in 0..2 { expect[w] += sub[w]; } }
@@ -1516,7 +1520,7 @@ fn scenario_watch(sc: &str) -> Result<Violations, String> {
         }
         let got = [drain(&mut ra), drain(&mut rb)];
         for w in 0..2 {
-            let ok = got[w].len() == expect[w] && got[w].iter().all(|m| m.starts_with("changed k ") || m.starts_with("changed-version k ") || m == "removed k\n");
+            let ok = got[w].len() == expect[w] && got[w].iter().all(|m| m.starts_with("changed k ") || m.starts_with("changed-version k ") || m == "removed k\n" || m.starts_with("changed kk ") || m.starts_with("changed-version kk "));
             chk(&mut v, "C03.subscription-window", ok);
             chk(&mut v, "C03.watch-appends", ok); chk(&mut v, "C03.watch-frame", ok);
             chk(&mut v, "C03.unwatch-all-only-mine", ok || !sc.contains('x')); chk(&mut v, "C03.unwatch-only-mine", ok || !sc.contains('u'));
@@ -1541,11 +1545,24 @@ fn all_watch_scenarios() -> Vec<String> {
     rec(&["s", "i", "r", "wB"], &mut vec![], if deep() { 4 } else { 3 }, &mut tails);
     for t in tails { out.push(format!("n.wA.{}", t)); out.push(format!("wA.n.{}", t)); }
     for t in ["wA.b", "wA.wB.b.s", "dA.b", "wA.b.b.s", "wA.s.b.r"] { out.push(t.to_string()); }
+    // two keys, one name inside the other: every sequence of <= 4 (5) events from watch / unwatch of the short one, watch of the long one, writes to both
+    let mut two = vec![];
+    rec(&["wA", "uA", "mA", "mB", "t", "s", "xB"], &mut vec![], if deep() { 5 } else { 4 }, &mut two);
+    for t in two { if t.contains('m') && t.contains('t') { out.push(t); } }
     out
 }
 
 // ------------------------------------------------------------------ family: lines (hostile command lines, then a probe from a second client)
 fn scenario_lines(sc: &str) -> Result<Violations, String> {
+    // NEST|<n>: `rp 1 rp 1 ... get public1` nested n times from an UNAUTHENTICATED client, in a process of its own (a stack overflow aborts the process and cannot be caught in
+    // process), on a thread with the default stack of a spawned thread - the way the TCP transport serves a connection.  The node must answer and keep serving (defect 22)
+    if let Some(n) = sc.strip_prefix("NEST|") {
+        let mut v: Violations = vec![];
+        let st = std::process::Command::new(std::env::current_exe().map_err(|e| e.to_string())?).arg("nest-child").arg(n)
+            .stdout(std::process::Stdio::null()).stderr(std::process::Stdio::null()).status().map_err(|e| e.to_string())?;
+        chk(&mut v, "C10.safety", st.code() == Some(0));
+        return Ok(v);
+    }
     let w = mk_world(0);
     let mut v: Violations = vec![];
     let (mut c, mut rx) = Client::new_empty_and_receiver();
@@ -2345,6 +2362,7 @@ fn all_flood_scenarios() -> Vec<String> {
     ["get secret", "set public1 y", "keys", "rp 1 get secret", "increment sea 1", "watch secret", "get $$secret", "nosuch"].iter().map(|c| format!("130|{}", c)).collect()
 }
 fn all_lines_scenarios() -> Vec<String> {
+    let mut nest: Vec<String> = vec!["NEST|2".into(), "NEST|400".into(), "NEST|20000".into()];
     let words = ["get", "get-safe", "set", "set-safe", "remove", "increment", "keys", "ls", "watch", "unwatch", "unwatch-all", "use", "use-db", "auth", "create-db", "create-user",
         "set-permissions", "snapshot", "election", "election candidate", "election win", "ack", "rp", "replicate", "replicate-remove", "replicate-increment", "replicate-since",
         "replicate-snapshot", "resolve", "debug", "arbiter", "cluster-state", "metrics-state", "list-commands", "set-primary", "set-secoundary", "nosuch", ""];
@@ -2361,6 +2379,7 @@ fn all_lines_scenarios() -> Vec<String> {
         out.push(format!("LONG|get {}|{}|{}", pad, unit, n));
     } } }
     out.retain(|l| { let adm = l.starts_with("A:") || l.starts_with("B:"); let b = l.trim_start_matches("A:").trim_start_matches("B:"); !(b.starts_with("election") && adm) && !b.starts_with("join") && !b.starts_with("leave") && !b.starts_with("set-primary") && !b.starts_with("set-secoundary") && !b.starts_with("replicate-since") && !(b.starts_with("debug") && adm) });
+    out.append(&mut nest);
     out
 }
 
@@ -2477,6 +2496,25 @@ fn main() {
                 format!("{{\"label\":\"{}\",\"scenario\":\"{}\",\"all\":[{}]}}", l, esc(s), scs.join(","))
             }).collect();
             println!("{{\"scenarios\":{},\"executed\":{},\"families\":{{{}}},\"violations\":[{}]}}", n, nontrivial, fams.join(","), viol.join(","));
+        }
+        "nest-child" => {
+            // one hostile line in a process of its own (a stack overflow cannot be caught in process): `rp 1 rp 1 ... get k`, nested <label> times, handled by a thread with the
+            // default stack of a spawned thread - the way the TCP transport serves a connection.  Exit 0: the node answered and still serves a second client
+            let n: usize = label.parse().unwrap_or(10);
+            let w = mk_world(0);
+            let dbs = w.dbs.clone();
+            let h = std::thread::spawn(move || {
+                let (mut c, mut rx) = Client::new_empty_and_receiver();
+                let mut line = String::new();
+                for _ in 0..n { line.push_str("rp 1 "); }
+                line.push_str("get public1");
+                let w2 = World { dbs };
+                let _ = run_cmd(&w2, &mut c, &mut rx, &line);
+            });
+            let _ = h.join();
+            let (mut c2, mut rx2) = Client::new_empty_and_receiver();
+            let (r, _) = run_cmd(&w, &mut c2, &mut rx2, "use-db d tok");
+            std::process::exit(if is_err(&r) { 3 } else { 0 });
         }
         "selftest" => {
             // on a correct tree no scenario violates anything
